@@ -15,7 +15,7 @@ RULE = ("for each row of the Doc 9871 field table (BDS 1,0 1,7 4,0 4,4 4,5 5,0 5
         "(where exported), as pyModeS.decoder.bds.bdsXX.<name>, and through the deprecated aliases; oracle: None iff status clear, else "
         "(two's-complement | unsigned) x LSB + offset, angles mod 360; the result must be identical across contexts; cap17: all single bits and random "
         "24-bit masks. non-trivial = sign bit set, raw at 0/max, or status clear with raw != 0"
-        ' Also: one context per field that is constant over the sweep, the frame passed as numpy.str_ and as a user str subclass, the list returned by cap17 edited by the caller before the next call, and more than 2^20 distinct frames decoded by one process (leg volume), the first calls of a freshly imported package made by four threads at once (leg first_use).')
+        ' Also: one context per field that is constant over the sweep, the frame passed as numpy.str_ and as a user str subclass, the list returned by cap17 edited by the caller before the next call, and more than 2^20 distinct frames decoded by one process (leg volume), the first calls of a freshly imported package made by four threads at once (leg first_use), one context with every other field of the register on a corner of its range, replies whose AP digits repeat digits inside MB, address 000000 and other boundary addresses, the decoder first handed damaged forms of the reply.')
 ASSUMPTIONS = ["field table ref/doc9871.py written from ICAO Doc 9871 (2nd ed.) tables A-2-16..A-2-96", "float results compared to 1e-9 absolute"]
 
 ROWS = D.FIELDS
